@@ -259,6 +259,15 @@ func init() {
 					Extra: map[string]interface{}{"finding": "request-before-first-frame", "expect_fail": true}})
 			}
 		}
+		// 1b. the smallest ring for which the property is claimed: capacity 2 (preview-secs 0,
+		// trigger-frames 2): the slot being copied is the one the loop writes next but one
+		{
+			in := raceInput{Preview: 0, Trigger: 2, Frames: frames, Conns: 1, Requesters: 8, PauseUs: 0}
+			sum, _, ok := raceRun(in)
+			torn, snaps := num(sum["torn"]), num(sum["snapshots"])
+			emit(Case{Coq: fmt.Sprintf("CWhole 2 %d %d %s", snaps, torn, coqBool(ok)), Input: in, Impl: sum,
+				Tags: []string{"whole-frame", "ring=2"}, Nontriv: snaps > 100, Key: "whole2"})
+		}
 		// 2. ring capacity 1: known finding (torn copies possible)
 		{
 			in := raceInput{Preview: 0, Trigger: 1, Frames: frames, Conns: 1, Requesters: 8, PauseUs: 0}
